@@ -47,7 +47,20 @@ def history(tid, rng, circuit, steps, meta):
     from graphiq.circuit import ops as gops
     init = cz.dag_obs(circuit, sample_incompat(rng, circuit))
     events = []
+    twin, twin_ref = None, None
     for _ in range(steps):
+        # now and then a copy of the circuit is set aside; after later edits on the original (register-adding ones
+        # included) the copy is looked at again
+        if twin is None and rng.random() < 0.1:
+            twin = circuit.copy()
+            twin_ref = cz.dag_obs(twin, [])
+        elif twin is not None and rng.random() < 0.25:
+            try:
+                events.append({"ev": "twin", "obs": cz.dag_obs(circuit, []), "twin_now": cz.dag_obs(twin, []),
+                               "twin_ref": twin_ref})
+            except Exception as ex:
+                events.append({"ev": "twin", "obs": pj.err_obs(ex), "after": cz.dag_obs(circuit, []), "twin_now": {}, "twin_ref": {}})
+                break
         dag = circuit.dag
         op_nodes = [n for n in dag.nodes if not isinstance(dag.nodes[n]["op"], gops.InputOutputOperationBase)]
         regs_q = [["e", i] for i in range(circuit.n_emitters)] + [["p", i] for i in range(circuit.n_photons)]
